@@ -68,3 +68,12 @@ Definition model_rediscover_check (l : list (Z * network * network * list (dev *
     let '(i, n1, n2, p2, want) := x in
     let got := model_rediscover n1 n2 p2 in
     if String.eqb got want then "" else show_Z i +++ "=" +++ got +++ "#") l).
+
+(* retry.tries itself, for the direct comparison with bardolph.lib.retry.tries: the call
+   would return 1, the fail value is 0; printed: G|A (gave up / answered), value, attempts,
+   outcomes left *)
+Definition model_tries_case (c : nat * list bool) : string :=
+  let '(r, attempts, rest) := tries (fst c) 1 0 (snd c) in
+  (if gave_up r then "G" else "A") +++ show_Z (tried_value r) +++ "," +++ show_Z (Z.of_nat attempts) +++ ","
+  +++ show_Z (Z.of_nat (length rest)) +++ "," +++ show_outs (tries_outcomes (fst c) (snd c)) +++ ";".
+Definition model_tries_cases (l : list (nat * list bool)) : string := sconcat (map model_tries_case l).
